@@ -493,6 +493,37 @@ fn make_vec(op: &Value) -> BV {
             }
             unsafe { BitVec::from_raw_parts(w, len) }
         }
+        "regrow" | "regrow_push" => {
+            // the vector is first longer and full of garbage, is shrunk to len - k
+            // (stale bits stay in the backend) and then grown back to len, by
+            // resize + set or bit by bit with push: its contents are the recipe's
+            let m = len.saturating_sub(k);
+            let bit_at = |p: usize| s.iter().zip(e.iter()).any(|(a, z)| *a <= p && p < *z);
+            let mut b = BitVec::new(len + k);
+            {
+                let w: &mut [usize] = b.as_mut();
+                for (a, z) in s.iter().zip(e.iter()) {
+                    set_range(w, *a, (*z).min(m));
+                }
+            }
+            for p in m..len + k {
+                b.set(p, garbage_bit(g, seed, p));
+            }
+            b.resize(m, false);
+            if t == "regrow" {
+                b.resize(len, false);
+                for p in m..len {
+                    if bit_at(p) {
+                        b.set(p, true);
+                    }
+                }
+            } else {
+                for p in m..len {
+                    b.push(bit_at(p));
+                }
+            }
+            b
+        }
         "push" => {
             // grown bit by bit (capacity and contents decided by push)
             let mut b = BitVec::with_capacity(k);
